@@ -40,6 +40,9 @@ type LoopSpec struct {
 	Invariants []Clause
 	Decreases  string
 	Modifies   []string
+	EntryAsserts []Clause // asserted at loop entry only (not invariant)
+	LabelBy    string     // expression whose literal value names the path
+	PanicSummary bool     // explore the recover handler once from the generalised mid-loop state
 }
 
 type Contract struct {
@@ -48,7 +51,7 @@ type Contract struct {
 	Results  []string
 	Requires []Clause
 	Ensures  []Clause
-	Loops    map[int]*LoopSpec
+	Loops    map[string]*LoopSpec // keyed by loop ordinal ("0") or by the enclosing loop's path label ("OpArray")
 	Mode     string
 	Inline   bool
 	Trusted  bool
@@ -57,6 +60,8 @@ type Contract struct {
 	Lets     []Clause // let name := expr (evaluated at entry)
 	Cases    map[string][]Clause
 	Props    []string
+	Pure     bool
+	MayPanic bool
 }
 
 func LoadWorld(repo string) (*World, error) {
@@ -193,7 +198,7 @@ func (w *World) parseContractFile(path string) error {
 			if len(fields) < 2 {
 				return fmt.Errorf("%s:%d: func needs a name", path, ln)
 			}
-			cur = &Contract{Func: fields[1], File: path, Loops: map[int]*LoopSpec{}, Cases: map[string][]Clause{}}
+			cur = &Contract{Func: fields[1], File: path, Loops: map[string]*LoopSpec{}, Cases: map[string][]Clause{}}
 			if len(fields) > 2 && fields[2] == "returns" {
 				cur.Results = fields[3:]
 			}
@@ -230,9 +235,9 @@ func (w *World) parseContractFile(path string) error {
 				}
 				cur.Lets = append(cur.Lets, Clause{strings.TrimSpace(rest[:i]), strings.TrimSpace(rest[i+2:])})
 			case "loop":
-				var n int
+				var n string
 				var what string
-				if _, err := fmt.Sscanf(rest, "%d %s", &n, &what); err != nil {
+				if _, err := fmt.Sscanf(rest, "%s %s", &n, &what); err != nil {
 					return fmt.Errorf("%s:%d: loop <n> invariant|decreases|modifies ...", path, ln)
 				}
 				ls := cur.Loops[n]
@@ -252,12 +257,26 @@ func (w *World) parseContractFile(path string) error {
 				case what == "decreases":
 					ls.Decreases = ex
 				case what == "modifies":
-					ls.Modifies = strings.Fields(ex)
+					ls.Modifies = append(ls.Modifies, strings.Fields(ex)...)
+				case strings.HasPrefix(what, "entry-assert"):
+					lb := fmt.Sprintf("a%d", len(ls.EntryAsserts))
+					if j := strings.Index(what, "["); j >= 0 {
+						lb = what[j+1 : len(what)-1]
+					}
+					ls.EntryAsserts = append(ls.EntryAsserts, Clause{lb, ex})
+				case what == "label-by":
+					ls.LabelBy = ex
+				case what == "panic-summary":
+					ls.PanicSummary = true
 				default:
 					return fmt.Errorf("%s:%d: unknown loop clause %s", path, ln, what)
 				}
 			case "mode":
 				cur.Mode = rest
+			case "pure":
+				cur.Pure = true
+			case "panics":
+				cur.MayPanic = true
 			case "inline":
 				cur.Inline = true
 			case "trusted":
